@@ -25,19 +25,15 @@ struct TimedTaskImpl {
   template <typename F, typename Schedulable>
   TimedTaskImpl(size_t times, double next, double per, F&& f, Schedulable& sched, bool stdy)
       : timesToRun(times), nextAbsTime(next), period(per), steady(stdy) {
+    // The caller (TimedTaskImpl::kickOff) has already counted this call in inProgress.
     func = [&sched, f = std::move(f), this](std::shared_ptr<TimedTaskImpl> me) {
-      if (flags.load(std::memory_order_acquire) & kFFlagsCancelled) {
-        return;
-      }
-
-      inProgress.fetch_add(1, std::memory_order_acq_rel);
-
       auto wrap = [&f, this, me = std::move(me)]() mutable {
         if (!(flags.load(std::memory_order_acquire) & kFFlagsCancelled)) {
           if (!f()) {
             timesToRun.store(0, std::memory_order_release);
             flags.fetch_or(kFFlagsCancelled, std::memory_order_acq_rel);
-            func = {};
+            // func is not destroyed here: the scheduler may be inside func for the next period, and
+            // another invocation of f may still be running.  ~TimedTask / ~TimedTaskImpl destroy it.
           }
           count.fetch_add(1, std::memory_order_acq_rel);
         }
@@ -47,6 +43,20 @@ struct TimedTaskImpl {
       };
       sched.schedule(wrap, ForceQueuingTag());
     };
+  }
+
+  // Calls func unless the task has been cancelled.  The call is announced in inProgress *before*
+  // the cancelled flag is checked and before func is touched: ~TimedTask cancels, then waits for
+  // inProgress == 0, then destroys func, so either this sees the cancellation and leaves func
+  // alone, or the destructor sees the announcement and waits.  Returns false if cancelled.
+  bool kickOff(std::shared_ptr<TimedTaskImpl> me) {
+    inProgress.fetch_add(1, std::memory_order_seq_cst);
+    if (flags.load(std::memory_order_seq_cst) & kFFlagsCancelled) {
+      inProgress.fetch_sub(1, std::memory_order_release);
+      return false;
+    }
+    func(std::move(me));
+    return true;
   }
 };
 
